@@ -208,13 +208,23 @@ inline int run_main(int argc, char** argv) {
     if (g.out_fd < 0) { perror("open out"); return 2; }
   }
   g.history.reserve(1 << 16);
+#if defined(__SANITIZE_ADDRESS__)
+#define VH_UNDER_ASAN 1
+#elif defined(__has_feature)
+#if __has_feature(address_sanitizer)
+#define VH_UNDER_ASAN 1
+#endif
+#endif
+#ifndef VH_UNDER_ASAN
+  // (AddressSanitizer handles SEGV/BUS/FPE itself: its report names the faulting frame, and __asan_on_error dumps the history)
   signal(SIGSEGV, fatal_signal_handler);
+  signal(SIGFPE, fatal_signal_handler);
+  signal(SIGBUS, fatal_signal_handler);
+#endif
 #if !defined(__SANITIZE_THREAD__)
   // (under ThreadSanitizer a SIGABRT handler deadlocks the runtime's abort_on_error path)
   signal(SIGABRT, fatal_signal_handler);
 #endif
-  signal(SIGFPE, fatal_signal_handler);
-  signal(SIGBUS, fatal_signal_handler);
   signal(SIGILL, fatal_signal_handler);
   const bool thorough = (g.tier == "thorough");
   uint64_t base = hash_mix(hash_str(g.config), g.seed);
